@@ -77,7 +77,8 @@ def _writers(repo, tables):
                         if isinstance(t, ast.Subscript) and isinstance(b, ast.Name):
                             tgt = b.id
                 elif isinstance(x, ast.Call) and isinstance(x.func, ast.Attribute) and isinstance(x.func.value, ast.Name) \
-                        and x.func.attr in ('add', 'append', 'update', 'setdefault', 'cache_or_get_cached_value', 'insert', 'extend', 'appendleft'):
+                        and (x.func.attr in ('add', 'append', 'update', 'setdefault', 'insert', 'extend', 'appendleft')
+                             or x.func.attr.startswith('cache_or_get_')):
                     tgt = x.func.value.id
                 elif isinstance(x, ast.Assign) and isinstance(x.value, ast.Call) and isinstance(x.value.func, ast.Attribute):
                     pass
@@ -142,7 +143,7 @@ def run(ctx):
                 for k in st.keywords:
                     if k.arg == 'key':
                         keys.append(k.value)
-                if not st.keywords and st.args and st.func.attr in ('setdefault', 'cache_or_get_cached_value'):
+                if not any(k.arg == 'key' for k in st.keywords) and st.args and (st.func.attr == 'setdefault' or st.func.attr.startswith('cache_or_get_')):
                     keys.append(st.args[0])
             for k in keys:
                 n += 1
@@ -150,7 +151,7 @@ def run(ctx):
                 replaced = _returns_cached_instead_of_argument(fn, st)
                 ctx.ob('C14.R2', f'key:{q.rsplit(".", 1)[1]}:{qualname_of(fn)}', m.where(st),
                        'the key identifies the memoised argument (no lossy text key standing in for the object)',
-                       not (lossy and replaced),
+                       not lossy,
                        f'key `{norm(k)[:60]}` is derived through {lossy}; the cached value replaces the argument: two '
                        f'distinct hints with one repr() share an entry' if lossy else '')
     cc = repo.mod('beartype._util.cache.utilcachecall')
@@ -230,6 +231,8 @@ def run(ctx):
             ctx.ob('C14.R3', f'fwdref:{tab}:{qualname_of(fn)}:success-only', m.where(st),
                    'the resolution table is written on the success path only', not in_handler, '')
 
+    _stale_alias_and_undo(ctx, repo, tables)
+
     # ---- R5 ----------------------------------------------------------------------
     pooled_typestate(ctx, 'C14.R5')
 
@@ -284,6 +287,123 @@ def _returns_cached_instead_of_argument(fn, st) -> bool:
     if isinstance(p, ast.Return) and isinstance(st, ast.Call):
         return True
     return False
+
+
+def _table_ops(fn, names):
+    """(stores, removes): module-level table names a function writes into / deletes from, directly."""
+    st, rm = set(), set()
+    for x in ast.walk(fn):
+        if isinstance(x, ast.Assign):
+            for t in x.targets:
+                if isinstance(t, ast.Subscript) and isinstance(t.value, ast.Name) and t.value.id in names:
+                    st.add(t.value.id)
+        elif isinstance(x, ast.Delete):
+            for t in x.targets:
+                if isinstance(t, ast.Subscript) and isinstance(t.value, ast.Name) and t.value.id in names:
+                    rm.add(t.value.id)
+        elif isinstance(x, ast.Call) and isinstance(x.func, ast.Attribute) and isinstance(x.func.value, ast.Name) \
+                and x.func.value.id in names:
+            if x.func.attr in ('pop', 'popitem', 'discard', 'remove'):
+                rm.add(x.func.value.id)
+            elif x.func.attr in ('setdefault', 'update', 'add', 'append'):
+                st.add(x.func.value.id)
+    return st, rm
+
+
+def _stale_alias_and_undo(ctx, repo, tables):
+    ctx.rule('C14.R8', '(a) a failure is not remembered: in every function of a module that owns a run-time memo table, '
+             'when an entry was stored (directly or through a helper of that module) and a later statement on the same '
+             'path raises or calls a die_* validator, the entry must have been removed *from that same table* in '
+             'between (store → undo → fail); (b) an alias of an element of a table (`v = T[k]`) is not mutated after '
+             '`T.clear()` without being re-fetched: the mutation would land in an orphaned object')
+    n = 0
+    by_mod = {}
+    for q in tables:
+        by_mod.setdefault(q.rsplit('.', 1)[0], set()).add(q.rsplit('.', 1)[1])
+    for mn, names in sorted(by_mod.items()):
+        m = repo.mod(mn)
+        fns = [x for x in ast.walk(m.tree) if isinstance(x, (ast.FunctionDef, ast.AsyncFunctionDef))]
+        summ = {f.name: _table_ops(f, names) for f in fns}
+        for f in fns:
+            # ---- (a) store -> undo -> fail -------------------------------------------------
+            def events(node, f=f):
+                out = []
+                for c in ([node] if isinstance(node, ast.expr) else ast.walk(node)):
+                    if isinstance(c, ast.Call) and isinstance(c.func, ast.Name) and c.func.id in summ and c.func.id != f.name:
+                        out += [f'stored:{t}' for t in summ[c.func.id][0]]
+                return out
+
+            def kills(node, f=f):
+                out = []
+                for c in ([node] if isinstance(node, ast.expr) else ast.walk(node)):
+                    if isinstance(c, ast.Call) and isinstance(c.func, ast.Name) and c.func.id in summ:
+                        out += [f'stored:{t}' for t in summ[c.func.id][1]]
+                    if isinstance(c, ast.Delete):
+                        out += [f'stored:{t.value.id}' for t in c.targets if isinstance(t, ast.Subscript) and isinstance(t.value, ast.Name)]
+                    if isinstance(c, ast.Call) and isinstance(c.func, ast.Attribute) and isinstance(c.func.value, ast.Name) \
+                            and c.func.attr in ('pop', 'discard', 'remove'):
+                        out.append(f'stored:{c.func.value.id}')
+                return out
+            if not any(events(st_) for st_ in walk_shallow(f) if isinstance(st_, ast.stmt)):
+                continue
+            fails = []
+
+            def on_stmt(node, state, fails=fails):
+                live = sorted(x for x in state if x.startswith('stored:'))
+                if not live:
+                    return
+                if isinstance(node, ast.Raise):
+                    fails.append((node, live))
+                elif isinstance(node, ast.Expr) and isinstance(node.value, ast.Call) and (dotted(node.value.func) or '').split('.')[-1].startswith('die_'):
+                    fails.append((node, live))
+            Flow(events, mode='may', kill=kills, on_stmt=on_stmt).run(f)
+            n += 1
+            ctx.ob('C14.R8', f'undo-before-fail:{mn.split(".")[-1]}.{qualname_of(f)}', m.where(fails[0][0] if fails else f),
+                   'no failing exit is reached while an entry stored on that path is still in its table', not fails,
+                   f'`{norm(fails[0][0])[:70]}` can fail while {fails[0][1]} is still memoised: the failure is remembered '
+                   f'(the entry was removed from another table, or not at all)' if fails else '')
+        # ---- (b) stale alias after clear ---------------------------------------------------
+        for f in fns:
+            aliases = {}
+            for a in walk_shallow(f):
+                if isinstance(a, ast.Assign) and isinstance(a.targets[0], ast.Name) and isinstance(a.value, ast.Subscript) \
+                        and isinstance(a.value.value, ast.Name) and a.value.value.id in names:
+                    aliases.setdefault(a.targets[0].id, a.value.value.id)
+            clears = [c for c in walk_shallow(f) if isinstance(c, ast.Call) and isinstance(c.func, ast.Attribute)
+                      and c.func.attr == 'clear' and isinstance(c.func.value, ast.Name) and c.func.value.id in set(aliases.values())]
+            if not aliases or not clears:
+                continue
+
+            def gen(node, aliases=aliases):
+                out = []
+                for c in ([node] if isinstance(node, ast.expr) else ast.walk(node)):
+                    if isinstance(c, ast.Call) and isinstance(c.func, ast.Attribute) and c.func.attr == 'clear' \
+                            and isinstance(c.func.value, ast.Name):
+                        out += [f'stale:{v}' for v, t in aliases.items() if t == c.func.value.id]
+                return out
+
+            def kill(node, aliases=aliases):
+                if isinstance(node, ast.Assign) and isinstance(node.targets[0], ast.Name) and node.targets[0].id in aliases:
+                    return [f'stale:{node.targets[0].id}']
+                return []
+            bad = []
+
+            def on_stmt2(node, state, bad=bad, aliases=aliases):
+                for c in ast.walk(node) if isinstance(node, (ast.Expr, ast.Assign, ast.AugAssign)) else []:
+                    if isinstance(c, ast.Call) and isinstance(c.func, ast.Attribute) and isinstance(c.func.value, ast.Name) \
+                            and c.func.value.id in aliases and f'stale:{c.func.value.id}' in state \
+                            and c.func.attr in ('add', 'append', 'update', 'setdefault', 'extend', 'insert', '__setitem__'):
+                        bad.append((node, c.func.value.id))
+                    if isinstance(c, ast.Subscript) and isinstance(c.ctx, ast.Store) and isinstance(c.value, ast.Name) \
+                            and c.value.id in aliases and f'stale:{c.value.id}' in state:
+                        bad.append((node, c.value.id))
+            Flow(gen, mode='may', kill=kill, on_stmt=on_stmt2).run(f)
+            n += 1
+            ctx.ob('C14.R8', f'alias-refetched-after-clear:{mn.split(".")[-1]}.{qualname_of(f)}', m.where(bad[0][0] if bad else f),
+                   'an element alias is re-fetched from its table after the table was cleared and before it is mutated',
+                   not bad, f'`{norm(bad[0][0])[:70]}` mutates {bad[0][1]}, which still refers to an element of the table '
+                   f'as it was before .clear(): the update is lost' if bad else '')
+    ctx.floor('C14.R8', n, 2, 'store/undo/fail functions and cleared-table aliases')
 
 
 # stores of private attributes on caller-supplied functions that need no ownership check, one reason each
